@@ -198,8 +198,13 @@ Definition init_state (mode : Z) (prefix : bytes) : wst * bytes :=
     end
   else ({| cur := len prefix; tail := []; skip := false |}, []).
 
-(* case = (max cut mode #prefix ((#append bufsz) ...)) *)
-Record wcase := { k_cfg : wcfg; k_mode : Z; k_prefix : bytes; k_rounds : list (bytes * nat) }.
+(* case = (max cut mode #prefix ((#append bufsz) ...))            the file starts with the prefix
+        | (max cut mode #prefix ((#append bufsz) ...) base)       the file starts with a hole of [base] bytes
+   (sparse file: the job resumes at base + len prefix, every offset is shifted by base; mode 0 only) *)
+Record wcase := { k_cfg : wcfg; k_mode : Z; k_prefix : bytes; k_rounds : list (bytes * nat); k_base : Z }.
+
+Definition shift_state (b : Z) (p : wst * bytes) : wst * bytes :=
+  let '(st, extra) := p in ({| cur := cur st + b; tail := tail st; skip := skip st |}, extra).
 
 Definition round_of_sx (s : sx) : option (bytes * nat) :=
   match s with
@@ -213,7 +218,15 @@ Definition case_of_sx (s : sx) : option wcase :=
       match as_bool cut, as_list round_of_sx rs with
       | Some cu, Some rl =>
           if (0 <=? mx) && ((mode =? 0) || (mode =? 1))
-          then Some {| k_cfg := {| wmax := mx; wcut := cu |}; k_mode := mode; k_prefix := pre; k_rounds := rl |}
+          then Some {| k_cfg := {| wmax := mx; wcut := cu |}; k_mode := mode; k_prefix := pre; k_rounds := rl; k_base := 0 |}
+          else None
+      | _, _ => None
+      end
+  | SL [SZ mx; cut; SZ mode; SB pre; rs; SZ base] =>
+      match as_bool cut, as_list round_of_sx rs with
+      | Some cu, Some rl =>
+          if (0 <=? mx) && (mode =? 0) && (0 <=? base)
+          then Some {| k_cfg := {| wmax := mx; wcut := cu |}; k_mode := mode; k_prefix := pre; k_rounds := rl; k_base := base |}
           else None
       | _, _ => None
       end
@@ -251,7 +264,7 @@ Definition sx_of_pass (which : Z) (c : wcfg) (p : list emit * wst) : sx :=
   SL [SL (map (sx_of_emit which c) es); SZ (cur st); SZ (cur st); SB (tail st); of_bool (skip st)].
 
 Definition c06_model (which : Z) (k : wcase) : sx :=
-  let '(st0, extra) := init_state (k_mode k) (k_prefix k) in
+  let '(st0, extra) := shift_state (k_base k) (init_state (k_mode k) (k_prefix k)) in
   SL (map (sx_of_pass which (k_cfg k)) (rounds_trace (k_cfg k) st0 (avail extra (k_rounds k)))).
 
 (* ---- the property's executable predicate on what the implementation did ---------------------- *)
@@ -301,7 +314,7 @@ Fixpoint pred_passes (which : Z) (c : wcfg) (st0 : wst) (seen : bytes) (got : li
   end.
 
 Definition c06_pred (which : Z) (k : wcase) (obs : sx) : bool :=
-  let '(st0, extra) := init_state (k_mode k) (k_prefix k) in
+  let '(st0, extra) := shift_state (k_base k) (init_state (k_mode k) (k_prefix k)) in
   match obs with
   | SL ol => pred_passes which (k_cfg k) st0 [] [] (avail extra (k_rounds k)) ol
   | _ => false
@@ -326,9 +339,44 @@ Definition c06_ci_model (case : sx) : option sx :=
   | _ => None
   end.
 
+(* which = 3: SEVERAL jobs (files) taken by ONE worker.work call after the other, i.e. with the same accumBuf /
+   readBuf (worker.go:48-49 allocate them once per work(), :131 and :206 reuse them for every job).
+     case = (w sched (filecase ...))   w = 0 | 1: the emit format of which 0 / 1;  filecase = a which-0/1 case
+            sched = ((fileindex ...) ...): one item per work() call = the jobs in the order the worker takes them;
+            each occurrence of a file consumes the next round of its filecase (the harness uses the round's bufsz as
+            the call's read buffer size; the generator gives all rounds of one call the same bufsz)
+     obs  = (obs_0 obs_1 ...)  the which-w observable of every file, regrouped per file
+   Jobs do not interact: whatever the schedule, every file must look exactly as if it had a worker of its own, so the
+   schedule is ignored here and every file is judged by the which-w model and predicate; the verdict is the worst. *)
+Definition worse (a b : verdict) : verdict :=
+  match a, b with
+  | BadCase, _ => a
+  | _, BadCase => b
+  | Violates _, _ => a
+  | _, Violates _ => b
+  | Differ _, _ => a
+  | _, Differ _ => b
+  | Agree, Agree => Agree
+  end.
+
+Fixpoint c06_files (w : Z) (cases obs : list sx) : verdict :=
+  match cases, obs with
+  | [], [] => Agree
+  | c :: cr, o :: or => worse (c06_run w c o) (c06_files w cr or)
+  | _, _ => BadCase
+  end.
+
+Definition c06_multi (case obs : sx) : verdict :=
+  match case, obs with
+  | SL [SZ w; SL _; SL (c :: cr)], SL ol =>
+      if (w =? 0) || (w =? 1) then c06_files w (c :: cr) ol else BadCase
+  | _, _ => BadCase
+  end.
+
 Definition c06_entry (which : Z) (case obs : sx) : verdict :=
   match which with
   | 0 | 1 => c06_run which case obs
+  | 3 => c06_multi case obs
   | _ => match c06_ci_model case with
          | Some m => exact_verdict m obs
          | None => BadCase
